@@ -47,14 +47,14 @@ Qed.
 (* ---------- the invariant ---------- *)
 (* what parsing the key computes: bracket check passes, the token stream is accepted with tree t while the
    callbacks record l *)
-Definition ok_entry (k : str) (t : tree) (l : names) : Prop :=
-  check_brackets k = None /\ exists ts, lex k = Some ts /\ cb_parse_tokens ts = (Some t, l).
+Definition ok_entry (engine : str -> bool) (k : str) (t : tree) (l : names) : Prop :=
+  check_brackets k = None /\ engine k = false /\ exists ts, lex k = Some ts /\ cb_parse_tokens ts = (Some t, l).
 
-Definition Inv (st : pstate) : Prop :=
+Definition Inv (engine : str -> bool) (st : pstate) : Prop :=
   S (cur st) = length (heap st) /\
   scratch st = no_names /\
   forall k p, In (k, p) (cache st) ->
-    p_ref p < cur st /\ strip_spaces k = k /\ ok_entry k (p_tree p) (cell st (p_ref p)).
+    p_ref p < cur st /\ strip_spaces k = k /\ ok_entry engine k (p_tree p) (cell st (p_ref p)).
 
 (* nothing that existed before is altered; the cache only grows *)
 Definition frame (st st' : pstate) : Prop :=
@@ -71,8 +71,8 @@ Proof.
   intros i Hi. rewrite K2 by lia. apply H2. assumption.
 Qed.
 
-Lemma inv_init : Inv init.
-Proof. split; [reflexivity|]. split; [reflexivity|]. intros k p []. Qed.
+Lemma inv_init : forall engine, Inv engine init.
+Proof. intro engine. split; [reflexivity|]. split; [reflexivity|]. intros k p []. Qed.
 
 Lemma strip_spaces_idem : forall s, strip_spaces (strip_spaces s) = strip_spaces s.
 Proof.
@@ -82,13 +82,20 @@ Qed.
 
 Section Faithful.
   Variable junk : str -> names.
+  Variable engine : str -> bool.
 
-  Notation raw_parse := (raw_parse junk faithful).
-  Notation parse_op := (parse_op junk faithful).
-  Notation eval_op := (eval_op junk faithful).
-  Notation step := (step junk faithful).
-  Notation run := (run junk faithful).
-  Notation trace := (trace junk faithful).
+  Notation raw_parse := (raw_parse junk engine faithful).
+  Notation parse_op := (parse_op junk engine faithful).
+  Notation eval_op := (eval_op junk engine faithful).
+  Notation step := (step junk engine faithful).
+  Notation run := (run junk engine faithful).
+  Notation trace := (trace junk engine faithful).
+  Notation spec_parse := (spec_parse engine).
+  Notation spec_eval := (spec_eval engine).
+  Notation spec_view := (spec_view engine).
+  Notation Inv := (Inv engine).
+  Notation ok_entry := (ok_entry engine).
+  Notation inv_init := (inv_init engine).
 
   (* record into the scratch cell, then replace it: every older cell is untouched, the written cell holds
      exactly what was recorded (the scratch was empty), the new scratch is empty *)
@@ -133,8 +140,9 @@ Section Faithful.
     | inl p => p_ref p = cur st /\ cur st < cur st' /\ ok_entry k (p_tree p) (cell st' (p_ref p))
     | inr (RawUnbal e) => check_brackets k = Some e
     | inr RawUnparsable =>
-        check_brackets k = None /\
+        check_brackets k = None /\ engine k = false /\
         (lex k = None \/ exists ts l, lex k = Some ts /\ cb_parse_tokens ts = (None, l))
+    | inr RawEngine => check_brackets k = None /\ engine k = true
     end.
   Proof.
     intros st k HI. unfold ParserState.raw_parse, fail. simpl.
@@ -142,24 +150,28 @@ Section Faithful.
     { pose proof (record_reset st no_names HI) as (A & B & C & D & E & F).
       split; [apply inv_after; assumption|]. split; [apply frame_after; assumption|].
       split; [assumption|reflexivity]. }
+    destruct (engine k) eqn:Ee.
+    { pose proof (record_reset st (junk k) HI) as (A & B & C & D & E & F).
+      split; [apply inv_after; assumption|]. split; [apply frame_after; assumption|].
+      split; [assumption|]. split; reflexivity. }
     destruct (lex k) as [ts|] eqn:El.
     2:{ pose proof (record_reset st (junk k) HI) as (A & B & C & D & E & F).
         split; [apply inv_after; assumption|]. split; [apply frame_after; assumption|].
-        split; [assumption|]. split; [reflexivity|]. left; reflexivity. }
+        split; [assumption|]. split; [reflexivity|]. split; [reflexivity|]. left; reflexivity. }
     destruct (cb_parse_tokens ts) as [[t|] l] eqn:Ec.
     - pose proof (record_reset st l HI) as (A & B & C & D & E & F).
       split; [apply inv_after; assumption|]. split; [apply frame_after; assumption|].
       split; [assumption|]. cbn [p_ref p_tree]. split; [reflexivity|]. split; [lia|].
-      rewrite E. split; [assumption|]. exists ts. split; assumption.
+      rewrite E. split; [assumption|]. split; [assumption|]. exists ts. split; assumption.
     - pose proof (record_reset st (l +++ junk k) HI) as (A & B & C & D & E & F).
       split; [apply inv_after; assumption|]. split; [apply frame_after; assumption|].
-      split; [assumption|]. split; [reflexivity|]. right. exists ts, l. split; (reflexivity || assumption).
+      split; [assumption|]. split; [reflexivity|]. split; [reflexivity|]. right. exists ts, l. split; (reflexivity || assumption).
   Qed.
 
   (* ---------- parse ---------- *)
   Lemma spec_parse_ok : forall s t l, ok_entry (strip_spaces s) t l -> spec_parse s = VTree t l.
   Proof.
-    intros s t l (Hb & ts & Hl & Hc). unfold spec_parse. rewrite Hb, Hl, Hc. reflexivity.
+    intros s t l (Hb & He & ts & Hl & Hc). unfold ParserState.spec_parse. rewrite Hb, He, Hl, Hc. reflexivity.
   Qed.
 
   Lemma parse_op_spec : forall st s, Inv st ->
@@ -175,7 +187,7 @@ Section Faithful.
       destruct (Hcache _ _ Ea) as (Hr & _ & O). split; [|assumption].
       simpl. symmetry. apply spec_parse_ok. assumption.
     - pose proof (raw_parse_spec st (strip_spaces s) HI) as R.
-      destruct (raw_parse st (strip_spaces s)) as [st' [p|[e|]]].
+      destruct (raw_parse st (strip_spaces s)) as [st' [p|[e| |]]].
       + (* parsed and cached *)
         destruct R as (HI' & HF & HC & Hp & Hlt & O).
         destruct HI' as (A & B & Hcache').
@@ -192,10 +204,12 @@ Section Faithful.
         * simpl. rewrite Cell. symmetry. apply spec_parse_ok. assumption.
         * simpl. lia.
       + destruct R as (HI' & HF & HC & Hb). split; [assumption|]. split; [assumption|]. split; [|exact I].
-        simpl. unfold spec_parse. rewrite Hb. reflexivity.
-      + destruct R as (HI' & HF & HC & Hb & Hl). split; [assumption|]. split; [assumption|]. split; [|exact I].
-        simpl. unfold spec_parse. rewrite Hb.
+        simpl. unfold ParserState.spec_parse. rewrite Hb. reflexivity.
+      + destruct R as (HI' & HF & HC & Hb & He & Hl). split; [assumption|]. split; [assumption|]. split; [|exact I].
+        simpl. unfold ParserState.spec_parse. rewrite Hb, He.
         destruct Hl as [Hl|(ts & l & Hl & Hc)]; rewrite Hl; [reflexivity|]. rewrite Hc. reflexivity.
+      + destruct R as (HI' & HF & HC & Hb & He). split; [assumption|]. split; [assumption|]. split; [|exact I].
+        simpl. unfold ParserState.spec_parse. rewrite Hb, He. reflexivity.
   Qed.
 
   (* ---------- evaluate ---------- *)
@@ -203,7 +217,7 @@ Section Faithful.
     let (st', v) := eval_op st E m f in
     Inv st' /\ frame st st' /\ v = spec_eval E m f.
   Proof.
-    intros st E m f HI. unfold ParserState.eval_op, spec_eval.
+    intros st E m f HI. unfold ParserState.eval_op, ParserState.spec_eval.
     destruct f as [s|]; [|split; [assumption|split; [apply frame_refl|reflexivity]]].
     destruct (py_strip s) as [|c s'] eqn:Es; [split; [assumption|split; [apply frame_refl|reflexivity]]|].
     pose proof (parse_op_spec st (c :: s') HI) as P.
@@ -301,21 +315,27 @@ Section Faithful.
 End Faithful.
 
 (* ---------- the stateless description is C03's model plus the callback names ---------- *)
-Theorem spec_parse_formula : forall s,
-  match spec_parse s, parse_formula s with
+(* (wherever the engine does not give up) *)
+Theorem spec_parse_formula : forall engine s, engine (strip_spaces s) = false ->
+  match spec_parse engine s, parse_formula s with
   | VTree t l, PTree t' => t = t' /\ nperm l (names_of t)
   | VErr (EUnbal e k), PUnbalanced e' => e = e' /\ k = strip_spaces s
   | VErr (EUnparse q), PUnparsable => q = s
   | _, _ => False
   end.
 Proof.
-  intro s. unfold spec_parse, parse_formula.
-  destruct (check_brackets (strip_spaces s)) as [e|]; [split; reflexivity|].
+  intros engine s He. unfold spec_parse, parse_formula.
+  destruct (check_brackets (strip_spaces s)) as [e|]; [split; reflexivity|]. rewrite He.
   destruct (lex (strip_spaces s)) as [ts|]; [|reflexivity].
   pose proof (cb_tree ts) as T. destruct (cb_parse_tokens ts) as [[t|] l] eqn:Ec; simpl in T; rewrite <- T.
   - split; [reflexivity|]. apply (cb_exact ts). assumption.
   - reflexivity.
 Qed.
+
+(* where the engine gives up, the exception escapes whatever C03's model would have said *)
+Theorem spec_parse_engine : forall engine s,
+  check_brackets (strip_spaces s) = None -> engine (strip_spaces s) = true -> spec_parse engine s = VErr EEngine.
+Proof. intros engine s B E. unfold spec_parse. rewrite B, E. reflexivity. Qed.
 
 Lemma forallb_perm : forall A (f : A -> bool) l l', Permutation l l' -> forallb f l = forallb f l'.
 Proof.
@@ -332,13 +352,16 @@ Proof.
   rewrite (forallb_perm _ _ _ _ H1), (forallb_perm _ _ _ _ H2), (forallb_perm _ _ _ _ H3). reflexivity.
 Qed.
 
-(* the evaluating call, after any history, is Model/Eval.v's evaluator *)
-Theorem spec_eval_evaluator : forall E m f, eview_outcome (spec_eval E m f) = evaluator E m f.
+(* the evaluating call, after any history, is Model/Eval.v's evaluator (where the engine does not give up) *)
+Theorem spec_eval_evaluator : forall engine E m f,
+  (forall s, f = Some s -> engine (strip_spaces (py_strip s)) = false) ->
+  eview_outcome (spec_eval engine E m f) = evaluator E m f.
 Proof.
-  intros E m f. unfold spec_eval, evaluator. destruct f as [s|]; [|reflexivity].
+  intros engine E m f He. unfold spec_eval, evaluator. destruct f as [s|]; [|reflexivity].
+  specialize (He s eq_refl).
   destruct (py_strip s) as [|c s']; [reflexivity|].
-  pose proof (spec_parse_formula (c :: s')) as P.
-  destruct (spec_parse (c :: s')) as [t l|[e k|q]]; destruct (parse_formula (c :: s')) as [t'|e'|];
+  pose proof (spec_parse_formula engine (c :: s') He) as P.
+  destruct (spec_parse engine (c :: s')) as [t l|[e k|q|]]; destruct (parse_formula (c :: s')) as [t'|e'|];
     try contradiction.
   - destruct P as [<- P]. rewrite (check_scope_perm E l t P).
     destruct (check_scope E t); [reflexivity|].
@@ -349,16 +372,17 @@ Proof.
 Qed.
 
 (* the reported collections, as sets, are those of the tree Model/Parser.v builds -- on any reachable state *)
-Theorem reported_names_exact : forall junk ops s t,
+Theorem reported_names_exact : forall junk engine ops s t,
+  engine (strip_spaces s) = false ->
   parse_formula s = PTree t ->
-  exists l, snd (step junk faithful (run junk faithful init ops) (OParse s)) = VP (VTree t l) /\
+  exists l, snd (step junk engine faithful (run junk engine faithful init ops) (OParse s)) = VP (VTree t l) /\
             nperm l (names_of t).
 Proof.
-  intros junk ops s t H.
-  pose proof (step_spec junk (run junk faithful init ops) (OParse s) (reachable_inv junk ops)) as P.
-  destruct (step junk faithful (run junk faithful init ops) (OParse s)) as [st' v].
+  intros junk engine ops s t He H.
+  pose proof (step_spec junk engine (run junk engine faithful init ops) (OParse s) (reachable_inv junk engine ops)) as P.
+  destruct (step junk engine faithful (run junk engine faithful init ops) (OParse s)) as [st' v].
   destruct P as (_ & _ & ->). simpl.
-  pose proof (spec_parse_formula s) as Q. rewrite H in Q.
-  destruct (spec_parse s) as [t' l|[e k|q]]; try contradiction.
+  pose proof (spec_parse_formula engine s He) as Q. rewrite H in Q.
+  destruct (spec_parse engine s) as [t' l|[e k|q|]]; try contradiction.
   destruct Q as [<- Q]. exists l. split; [reflexivity|assumption].
 Qed.
